@@ -100,6 +100,13 @@ func (p *HTTPProxy) ServeHTTPWithUpstream(
 		r = r.WithContext(ctx)
 	}
 
+	// The reverse proxy strips the headers listed in the 'Connection' header
+	// after the request has been prepared, so a client listing the Piko
+	// routing headers there would have them removed from the forwarded
+	// request (and the next node would forward the request again, or route
+	// by the Host instead of the x-piko-endpoint header).
+	keepRoutingHeaders(r.Header)
+
 	r.Header.Set("x-piko-forward", "true")
 
 	r = r.WithContext(context.WithValue(r.Context(), endpointContextKey, endpointID))
@@ -108,6 +115,33 @@ func (p *HTTPProxy) ServeHTTPWithUpstream(
 	r = r.WithContext(context.WithValue(r.Context(), upstreamContextKey, upstream))
 
 	p.proxy.ServeHTTP(w, r)
+}
+
+// keepRoutingHeaders removes the Piko routing headers from the list of
+// hop-by-hop headers given in the 'Connection' header.
+func keepRoutingHeaders(h http.Header) {
+	values := h.Values("Connection")
+	if len(values) == 0 {
+		return
+	}
+
+	var options []string
+	for _, value := range values {
+		for _, option := range strings.Split(value, ",") {
+			option = strings.TrimSpace(option)
+			if option == "" ||
+				strings.EqualFold(option, "x-piko-forward") ||
+				strings.EqualFold(option, "x-piko-endpoint") {
+				continue
+			}
+			options = append(options, option)
+		}
+	}
+
+	h.Del("Connection")
+	if len(options) > 0 {
+		h.Set("Connection", strings.Join(options, ", "))
+	}
 }
 
 func (p *HTTPProxy) dialUpstream(ctx context.Context, _, _ string) (net.Conn, error) {
